@@ -13,6 +13,7 @@ for p in tools/gen_*.py; do
     tools/gen_atomics.py) python3 "$p" "$REPO" lean/IndicatifModel/Generated/Atomics.lean ;;
     tools/gen_unwraps.py) python3 "$p" "$REPO" lean/IndicatifModel/Generated/Unwraps.lean ;;
     tools/gen_template.py) python3 "$p" "$REPO" lean/IndicatifModel/Generated/TemplateArms.lean ;;
+    tools/gen_overrides.py) python3 "$p" "$REPO" lean/IndicatifModel/Generated/Overrides.lean ;;
   esac
 done
 ( cd lean
